@@ -35,6 +35,8 @@ AllFaults == {"none", "read",        \* the target cannot be read
               "fsize",               \* file-size limit: writes of new content fail
               "rename", "kill_rename",  \* rename fails / process killed before the rename
               "missing",             \* an extra argument names a path that does not exist (given before file f)
+              "badpatch",            \* the patches are requested through a patch list (-P) that cannot be read
+                                     \* (it is a directory, or holds a line longer than the line buffer)
               "rodir", "rodir_fsize"}  \* the directory is read-only for the (unprivileged) user: no temporary file can
                                      \* be created next to the target; alone, or together with the file-size limit
 
@@ -59,10 +61,10 @@ FaultAt(p) == fault.f = cur /\ fault.p = p
 Init ==
   /\ kinds \in UNION {[1..n -> Kinds] : n \in 1..MaxFiles}
   /\ flags \in Flags
-  /\ fault \in {[f |-> 0, p |-> q] : q \in FaultPoints \cap {"none", "fsize", "rodir", "rodir_fsize"}}
-               \cup {[f |-> i, p |-> q] : i \in 1..Len(kinds), q \in FaultPoints \ {"none", "fsize", "missing", "rodir", "rodir_fsize"}}
+  /\ fault \in {[f |-> 0, p |-> q] : q \in FaultPoints \cap {"none", "fsize", "rodir", "rodir_fsize", "badpatch"}}
+               \cup {[f |-> i, p |-> q] : i \in 1..Len(kinds), q \in FaultPoints \ {"none", "fsize", "missing", "rodir", "rodir_fsize", "badpatch"}}
                \cup {[f |-> i, p |-> q] : i \in 1..(Len(kinds) + 1), q \in FaultPoints \cap {"missing"}}
-  /\ cur = 1 /\ stage = "discover"
+  /\ cur = 1 /\ stage = "load"
   /\ disk = [i \in 1..Len(kinds) |-> "orig"]
   /\ stdout = <<>> /\ stderr = <<>> /\ errs = <<>> /\ rerrs = <<>>
   /\ touched = {} /\ nwrites = 0 /\ exit = -1
@@ -71,6 +73,15 @@ Out(what) == stdout' = Append(stdout, [f |-> cur, what |-> what])
 Log(what) == IF flags.verbose THEN Out(what) ELSE UNCHANGED stdout
 Err(what) == errs' = Append(errs, [f |-> cur, what |-> what])
 NextFile  == cur' = cur + 1 /\ stage' = IF cur = N THEN "finish" ELSE "read"
+
+\* progs, err := cmd.loadPatches(opts); if err != nil { return err }: patches that cannot be loaded end the run
+\* before anything else happens; the cause is printed, exit 1
+LoadPatches ==
+  /\ stage = "load"
+  /\ IF fault.p = "badpatch"
+     THEN /\ stderr' = Append(stderr, [f |-> 0, what |-> "patchload"]) /\ exit' = 1 /\ stage' = "done"
+     ELSE /\ stage' = "discover" /\ UNCHANGED <<stderr, exit>>
+  /\ UNCHANGED <<kinds, flags, fault, cur, disk, stdout, errs, rerrs, touched, nwrites>>
 
 \* files, err := findFiles(cwd, patterns); if err != nil { return err }: a path that cannot
 \* be enumerated ends the run before any file is looked at; the cause is printed, exit 1
@@ -174,7 +185,7 @@ Finish ==
   /\ stage' = "done"
   /\ UNCHANGED <<kinds, flags, fault, cur, disk, stdout, errs, rerrs, touched, nwrites>>
 
-Next == Discover \/ Read \/ Parse \/ Generated \/ Apply \/ FormatImports \/ EmitDiff \/ EmitPrint
+Next == LoadPatches \/ Discover \/ Read \/ Parse \/ Generated \/ Apply \/ FormatImports \/ EmitDiff \/ EmitPrint
         \/ WriteTemp \/ WriteRename \/ Finish
 Spec == Init /\ [][Next]_vars /\ WF_vars(Next)
 
@@ -184,7 +195,9 @@ ReadFails(i) == fault.f = i /\ fault.p = "read"
 Unmatched(i) == ~ReadFails(i) /\ (kinds[i] = "nomatch" \/ (kinds[i] = "generated" /\ flags.skipGenerated))
 StdoutOf(i) == SelectSeq(stdout, LAMBDA r : r.f = i /\ r.what # "log")
 StderrOf(i) == SelectSeq(stderr, LAMBDA r : r.f = i)
-Processed(i) == fault.p # "missing" /\ (i < cur \/ stage \in {"finish", "done"})
+\* the run ended before any file was looked at
+Aborted == fault.p \in {"missing", "badpatch"}
+Processed(i) == ~Aborted /\ (i < cur \/ stage \in {"finish", "done"})
 
 \* C06 (and C18 first half): no match => no effect
 C06_NoMatchNoEffect ==
@@ -206,7 +219,7 @@ C07_EmittedParses ==
 \* else - e.g. a file's content cut short - as "other")
 C07_OutputWellFormed == \A k \in 1..Len(stdout) : stdout[k].what # "other"
 C07_BadResultReported ==
-  stage = "done" /\ fault.p # "missing" =>
+  stage = "done" /\ ~Aborted =>
      \A i \in 1..N : kinds[i] = "badresult" => exit # 0 /\ StderrOf(i) # <<>>
 
 \* C12: dry runs never write
@@ -238,11 +251,13 @@ C16_Reported ==
      /\ \A i \in 1..N : (MayFail(i) /\ Processed(i) /\ disk[i] = "orig") => exit # 0 /\ StderrOf(i) # <<>>
      \* a path that could not be processed at all is reported, with its cause
      /\ (fault.p = "missing" => exit # 0 /\ \E k \in 1..Len(stderr) : stderr[k].what = "enumerate")
+     \* ... and so are patches that could not be loaded
+     /\ (fault.p = "badpatch" => exit # 0 /\ \E k \in 1..Len(stderr) : stderr[k].what = "patchload")
 C16_ExitZeroMeansAllDone ==
-  stage = "done" /\ exit = 0 => fault.p # "missing" /\ \A i \in 1..N : Unmatched(i) \/ disk[i] \in {"patched", "badpatched"} \/ flags.diff \/ flags.print
+  stage = "done" /\ exit = 0 => ~Aborted /\ \A i \in 1..N : Unmatched(i) \/ disk[i] \in {"patched", "badpatched"} \/ flags.diff \/ flags.print
 \* an unparseable target does not change what happens to any other file
 C16_Isolation ==
-  stage = "done" /\ fault.p # "missing" =>
+  stage = "done" /\ ~Aborted =>
      \A i \in 1..N : kinds[i] = "match" /\ ~Failed(i) /\ ~MayFail(i) /\ ~flags.diff /\ ~flags.print => disk[i] = "patched"
 
 \* C18: --skip-generated protects generated files, and only them
@@ -255,7 +270,7 @@ C18_OnlyThem ==
 
 \* ... a file without any marker is processed exactly as without the flag
 C18_PlainProcessed ==
-  stage = "done" /\ fault.p # "missing" =>
+  stage = "done" /\ ~Aborted =>
      \A i \in 1..N : kinds[i] = "match" /\ ~Failed(i) /\ ~MayFail(i) =>
         IF flags.diff THEN \E k \in 1..Len(stdout) : stdout[k] = [f |-> i, what |-> "diff"]
         ELSE IF flags.print THEN \E k \in 1..Len(stdout) : stdout[k] = [f |-> i, what |-> "patched"]
